@@ -209,6 +209,19 @@ def check(s, record, obs, layout, lexicon_all, counters):
             raise Violation("terms_within_exact", "%s: terms_within(w, %r, %d, prefix=%d) = %s; every reading of the documented distance requires %s and allows at most %s (missing %s, extra %s)"
                             % (layout, word, d, p, sorted(tw), sorted(exp_must), sorted(exp_all), missing, extra),
                             sig="terms_within:%s" % ("missing" if missing else "extra"))
+        # ... and, among the terms of live documents, it is *exactly* the set under one of the
+        # documented readings: a path may implement any of them, but not a mixture (e.g. Damerau
+        # that forgets transpositions at the start of the word)
+        live_terms = set(freq)
+        cand = [t for t in live_terms if t.startswith(word[:p])]
+        readings = (("damerau-levenshtein", lambda t: damerau_levenshtein(word, t, d)),
+                    ("levenshtein", lambda t: _lev(word, t)),
+                    ("insert/delete/transpose", lambda t: indel_transpose(word, t)))
+        mine = tw & live_terms
+        if not any(mine == set(t for t in cand if dist(t) <= d) for _, dist in readings):
+            raise Violation("terms_within_exact", "%s: terms_within(w, %r, %d, prefix=%d) restricted to live terms = %s equals the set under none of the documented distances: %s"
+                            % (layout, word, d, p, sorted(mine), dict((n, sorted(t for t in cand if dist(t) <= d)) for n, dist in readings)),
+                            sig="terms_within:no_consistent_reading")
         # FuzzyTerm matches exactly the documents containing such terms (same two bounds)
         lo_docs = set(i for i in live if any(t in exp_must for t in docs[i]))
         hi_docs = set(i for i in live if any(t in exp_all for t in docs[i]))
